@@ -98,7 +98,7 @@ fn rfc768_sum(h: &[u8; 8], pay: &[u8; 3], n: usize, s: &[u8; 4], d: &[u8; 4]) ->
     t as u16
 }
 
-//# id=checksum.emitted_datagram_verifies fns=build_udp_header+UdpHeader::from_bytes_ipv4+Checksum::* props=C18 kind=bounded bound=payload_of_0_to_3_octets_all_contents features=compute_checksum pair=
+//# id=checksum.emitted_datagram_verifies fns=build_udp_header+UdpHeader::from_bytes_ipv4+Checksum::* props=C18 kind=bounded bound=payload_of_0_to_3_octets_all_contents features=compute_checksum tier=thorough pair=
 // every emitted datagram verifies under the RFC 1071 rule over pseudo header, header and (odd or even) payload,
 // never carries the 'no checksum' value 0x0000 (RFC 768), and is accepted by the decoder
 #[cfg(feature = "compute_checksum")]
